@@ -260,6 +260,7 @@ def update(
     new: Mapping,
     priority: Literal["old", "new", "new-defaults"] = "new",
     defaults: Mapping | None = None,
+    _nested: bool = False,
 ) -> dict:
     """Update a nested dictionary with values from another
 
@@ -296,7 +297,10 @@ def update(
 
     """
     for k, v in new.items():
-        k, v = check_key_val(k, v)
+        if not _nested:
+            # like ``set``: only the top-level key (e.g. "device") is validated, not a nested
+            # key that happens to carry the same name
+            k, v = check_key_val(k, v)
         k = canonical_name(k, old)
         # the defaults may hold the key under its other '-'/'_' spelling
         dk = canonical_name(k, defaults) if defaults else k
@@ -309,6 +313,7 @@ def update(
                 v,
                 priority=priority,
                 defaults=defaults.get(dk) if defaults else None,
+                _nested=True,
             )
         else:
             if (
